@@ -17,8 +17,9 @@ Inductive rexp (V : Type) :=
 | RBin (f : binop) (a b : rarg V)   (* a + b, a - b through UncertainReal.__add__ ... *)
 | RUn (f : unop) (a : rarg V)       (* +a, -a *)
 | RNest (f : binop) (e : rexp V) (b : rarg V)   (* (e) f b : the left operand is the result of another call *)
-| RArg (a : rarg V).                (* the object itself (an operand, or a fresh constant) *)
-Arguments RBin {V}. Arguments RUn {V}. Arguments RNest {V}. Arguments RArg {V}.
+| RArg (a : rarg V)                 (* the object itself (an operand, or a fresh constant) *)
+| RNestUn (f : unop) (e : rexp V).  (* +(e), -(e): unary operator on the result of another call *)
+Arguments RBin {V}. Arguments RUn {V}. Arguments RNest {V}. Arguments RArg {V}. Arguments RNestUn {V}.
 
 (* which assembler of lib.py 3857-4244 *)
 Inductive bikind := K_uc_uc | K_uc_ur | K_uc_n | K_ur_uc | K_n_uc.
